@@ -119,6 +119,17 @@ def check_bytes(case, ctx):
             "bytes/legacy_serialisation")
     t2 = must(Tx.parse_hex, "bytes/parse_hex", raw.hex())
     require(t2.serialize() == raw, "bytes/parse_hex_roundtrip")
+    # the transaction in the middle of a longer stream (as inside a block or a PSBT): parsing starts at the
+    # current position, reads exactly the transaction, and is not confused by what precedes or follows it
+    want_id_hex = want_id.hex()
+    pre = want_id[: 1 + len(raw) % 7]
+    post = want_id[::-1][: len(raw) % 5]
+    s3 = BytesIO(pre + raw + post)
+    s3.read(len(pre))
+    t3 = must(Tx.parse, "bytes/parse_inside_stream", s3)
+    require(s3.tell() == len(pre) + len(raw), "bytes/embedded_stream_position",
+            f"at {s3.tell()}, transaction spans {len(pre)}..{len(pre) + len(raw)}")
+    require(t3.serialize() == raw and t3.id() == want_id_hex, "bytes/embedded_parse_differs")
 
 
 def build_api(tx):
